@@ -110,6 +110,7 @@ func checkC06(c c06Case, o *Obs) error {
 	o.Label("measure:" + c.Measure)
 	o.LabelIf(c.Table, "table")
 	o.LabelIf(len(c.Targets) > 12, "targets>12")
+	o.LabelIf(len(c.Targets[0].Seq) >= 64, "width>=64")
 	lines := splitLines(out.String())
 	if len(lines) == 0 {
 		return fmt.Errorf("no output")
@@ -383,7 +384,20 @@ func genC06(t *rapid.T) c06Case {
 	c := c06Case{Measure: rapid.SampledFrom([]string{"raw", "snp", "snp", "tn93"}).Draw(t, "measure")}
 	c.Threads = rapid.SampledFrom([]int{0, 1, 2, 16}).Draw(t, "threads")
 	w := rapid.IntRange(6, 30).Draw(t, "width")
+	wide := rapid.IntRange(0, 7).Draw(t, "wide") == 0
+	if wide {
+		// block-sized widths (multiples of 64 and their neighbours): vectorised / blocked loops have their edge cases here
+		w = rapid.SampledFrom([]int{64, 65, 127, 128, 129, 192, 193, 256, 320, 200}).Draw(t, "wideWidth")
+	}
 	base := genBalancedTarget(t, w)
+	if wide && rapid.Bool().Draw(t, "periodicBase") {
+		// unit-periodic base: wrapped at the unit length, consecutive lines of a record are identical
+		u := rapid.SampledFrom([]int{64, 70, 80}).Draw(t, "unit")
+		unit := genBalancedTarget(t, u)
+		for i := range base {
+			base[i] = unit[i%u]
+		}
+	}
 	nq := rapid.IntRange(1, 3).Draw(t, "nq")
 	for i := 0; i < nq; i++ {
 		q := append([]byte(nil), base...)
@@ -393,6 +407,17 @@ func genC06(t *rapid.T) c06Case {
 		}
 		if rapid.IntRange(0, 4).Draw(t, "qamb") == 0 {
 			q[rapid.IntRange(0, w-1).Draw(t, "qambPos")] = 'N'
+		}
+		if wide && rapid.Bool().Draw(t, "qMasked") {
+			// long masked stretches (N, -, ?) anywhere but not necessarily at the end
+			for k := rapid.IntRange(1, 3).Draw(t, "nMaskRuns"); k > 0; k-- {
+				p := rapid.IntRange(0, w-1).Draw(t, "maskPos")
+				n := rapid.IntRange(20, 90).Draw(t, "maskLen")
+				sym := rapid.SampledFrom([]byte{'N', '-', '?'}).Draw(t, "maskSym")
+				for j := p; j < p+n && j < w; j++ {
+					q[j] = sym
+				}
+			}
 		}
 		c.Queries = append(c.Queries, FaRec{ID: fmt.Sprintf("q%d", i), Seq: string(q)})
 	}
@@ -488,6 +513,9 @@ func genC06(t *rapid.T) c06Case {
 	}
 	c.D = d
 	c.TLay = genLayout(t, w)
+	if wide {
+		c.TLay.Width = rapid.SampledFrom([]int{0, 60, 64, 70, 80, 64}).Draw(t, "wideWrap")
+	}
 	c.CLI = rapid.IntRange(0, 19).Draw(t, "cli") == 0
 	return c
 }
